@@ -9,6 +9,7 @@
                 (derived from the real signed objects), the providers' answer tables,
                 settings, provider roles, trust root
      NewClient  light.NewClient: result class, requests/answers, store and roles after
+     Update     Client.Update(now), same fields as Verify
      Verify     VerifyLightBlockAtHeight(h, now): result class, every request with the
                 answer the provider returned (in arrival order, tagged with the phase),
                 evidence reported, store and roles after
@@ -137,7 +138,8 @@ StoredHow(pre, hd) ==
   IF sc.blocks[hh].h < MinH(sc, pre) THEN "backwards" ELSE sc.cfg.mode
 
 StepVerify(e) ==
-  LET pred(s) == VerifyAtHeight(sc, cl, cnt, e.h, e.now, s)
+  LET pred(s) == IF e.ev = "Update" THEN UpdateCall(sc, cl, cnt, e.now, s)
+                 ELSE VerifyAtHeight(sc, cl, cnt, e.h, e.now, s)
       ok   == \E s \in Scheds : Matches(pred(s), e)
       pre  == HidsOf(cl.store)
       ids  == Range(e.post.store)
@@ -150,7 +152,7 @@ StepVerify(e) ==
       P    == {s \in Scheds : ReqAgree(PriOnly(pred(s).x.reqs), PriOnly(e.obs))}
       att  == UNION {pred(s).x.att : s \in P}
       tos  == {e.evid[i].to : i \in DOMAIN e.evid} IN
-  /\ drift' = drift \cup FailIf(~ok, Drift("Verify: no reply schedule of the specification reproduces the observed call",
+  /\ drift' = drift \cup FailIf(~ok, Drift(e.ev \o ": no reply schedule of the specification reproduces the observed call",
                                            pred(e.sched).res))
   /\ viol' = viol
        \cup FailIf(\E b \in ids : b \notin DOMAIN sc.blocks, Viol("StoreSound", "unknown_block_stored"))
@@ -173,6 +175,7 @@ Step ==
          [] e.ev = "Reset"     -> StepReset(e)
          [] e.ev = "NewClient" -> StepNewClient(e)
          [] e.ev = "Verify"    -> StepVerify(e)
+         [] e.ev = "Update"    -> StepVerify(e)
   /\ l' = l + 1
 
 Finish ==
